@@ -124,7 +124,7 @@ theorem markersOk_back {V : St → List Val} {s1 s' : St} (hg : G V s1 s') (h : 
 theorem PresG.kl {V : St → List Val} {I J K : St → List Nat → Prop} {f g : St → CM St} {cf cg : St → List Nat}
     (hf : PresG V I J f cf) (hg : PresG V J K g cg) (hI : ∀ s cs, I s cs → (V s).length = s.descs.length)
     (gf : Grows V f) (gg : Grows V g) :
-    PresG V I K (Bufr.kl f g) (fun s => match f s with | .ok s1 => cf s ++ cg s1 | .error _ => []) := by
+    PresG V I K (Bufr.kl f g) (fun s => cf s ++ (match f s with | .ok s1 => cg s1 | .error _ => [])) := by
   intro s s' cs h hok hi
   unfold Bufr.kl at h
   cases h1 : f s with
